@@ -16,7 +16,7 @@ THEOREMS = ['Otel.C06.' + t for t in (
     'interval_exact', 'first_interval_exact', 'delta_conservation', 'cumulative_running_total',
     'reader_noninterference', 'delta_intervals_abut', 'cumulative_starts_at_sdk_start',
     # the meter: projection of a meter history on a stream, handles and view streams
-    'minv_run', 'streamOut_eq', 'meter_collect_matches', 'recorded_proj',
+    'minv_run', 'streamOut_eq', 'meter_collect_matches', 'meter_outs_cons', 'meter_outs_other', 'recorded_proj',
     'every_handle_counts_cumulative', 'every_handle_counts_delta', 'every_view_stream_registered',
     # record/collect races: every interleaving of add / swap / build steps
     'sched_conservation', 'sched_conservation_quiescent', 'sched_no_lost_update',
